@@ -694,6 +694,12 @@ func runC29(planAny any, cfg simrt.Config) *simkit.Outcome {
 			out.Violate("C29.failed-execution-advanced-window", "no execution succeeded (%d failed) but last_processed_time is %s", nFail, ts(*ex.lastProc))
 		case len(done) > 0 && ex.lastProc == nil:
 			out.Violate("C29.success-did-not-advance-window", "%d executions succeeded but last_processed_time is still unset", len(done))
+		case len(done) > 0 && done[len(done)-1].Explicit:
+			// the last successful execution named its own (ad-hoc) range: the
+			// statement speaks of scheduled executions and does not say where
+			// the schedule continues after an operator's explicit range, so
+			// the pointer is not judged here (overlap/gap of the NEXT
+			// scheduled window is judged above when it happens)
 		case len(done) > 0 && ex.lastProc.Unix() != done[len(done)-1].End.Unix():
 			l := done[len(done)-1]
 			if lastFailedEnd[ex.lastProc.Unix()] {
